@@ -455,3 +455,19 @@ func init() {
 		},
 	})
 }
+
+func init() {
+	replayDrivers = append(replayDrivers, replayDriver{
+		match: func(n string) bool { return strings.Contains(n, "getValidSSHPublicKey#C19.") },
+		run: func(r *Report, o *Obligation, sr *SolveResult) ReplayResult {
+			m := parseModel(sr.Model)
+			v := m["p_userPubKey"]
+			hx, _ := hexOfSMTString(v)
+			b, _ := hex.DecodeString(hx)
+			kt := strings.SplitN(string(b), " ", 2)[0]
+			in := map[string]string{"key_type": kt}
+			out, conf := goReplay(r, "cmd/keymasterd", "keymasterd_replay_test.go", "TestVerifReplayOfferedKeyType", in)
+			return ReplayResult{Confirmed: conf, Summary: replaySummary(out), Inputs: map[string]string{"key_type": kt, "model_line": v}, Output: truncate(out, 4000), Driver: "TestVerifReplayOfferedKeyType (a real key of the type named by the model's key line)"}
+		},
+	})
+}
